@@ -372,7 +372,9 @@ def check_aux(run, bitpacked):
     strided[::2] = packed
     ro = packed.copy()
     ro.flags.writeable = False
-    for label, arg, ppd in (('list', [int(x) for x in packed[:200]], 64), ('strided', strided[::2], 64), ('readonly', ro, 64), ('float-ppd', packed, 64.0), ('numpy-int-ppd', packed, np.int64(64))):
+    # (words stored in the other byte order, as a FITS / big-endian file column hands them over, are the same integers)
+    swapped_u, swapped_i = packed.astype(packed.dtype.newbyteorder()), packed.view(np.int64).astype(np.dtype(np.int64).newbyteorder())
+    for label, arg, ppd in (('list', [int(x) for x in packed[:200]], 64), ('strided', strided[::2], 64), ('readonly', ro, 64), ('float-ppd', packed, 64.0), ('numpy-int-ppd', packed, np.int64(64)), ('other-byte-order-u8', swapped_u, 64), ('other-byte-order-i8', swapped_i, 64), ('native-i8', packed.view(np.int64), 64)):
         run.ev()
         run.nt(('aux_container', label))
         try:
@@ -415,6 +417,23 @@ def check_aux(run, bitpacked):
             continue
         if not (np.array_equal(p, refp) and np.array_equal(v, refv)):
             run.violation('rvint-container-dependence', dict(container=label))
+    # results handed out earlier stay what they were: a later call (same length, same dtype, other words) must not reach into them
+    for dtype in (np.float32, np.float64):
+        wa = rng.integers(0, 1 << 32, (700, 3), dtype=np.uint64).astype(np.uint32).view(np.int32)
+        wb = rng.integers(0, 1 << 32, (700, 3), dtype=np.uint64).astype(np.uint32).view(np.int32)
+        pa = rng.integers(0, 1 << 63, 700, dtype=np.uint64)
+        pb = rng.integers(0, 1 << 63, 700, dtype=np.uint64)
+        held = [('rvint', bitpacked.unpack_rvint(wa, 500.0, float_dtype=dtype)), ('pids', tuple(bitpacked.unpack_pids(pa, box=500.0, ppd=64, float_dtype=dtype, **ALLF).values()))]
+        snap = [[np.array(a, copy=True) for a in h] for _, h in held]
+        for shorter in (0, 13):
+            bitpacked.unpack_rvint(wb[shorter:], 500.0, float_dtype=dtype)
+            bitpacked.unpack_pids(pb[shorter:], box=500.0, ppd=64, float_dtype=dtype, **ALLF)
+            run.ev()
+            run.nt(('held_results', np.dtype(dtype).str, shorter))
+            for (label, h), sn in zip(held, snap):
+                run.count('earlier_results_rechecked', len(h))
+                if any(not np.array_equal(a, b, equal_nan=True) for a, b in zip(h, sn)):
+                    run.violation('earlier-result-changed-by-later-call', dict(routine=label, dtype=np.dtype(dtype).str, later_call_shorter_by=shorter))
     # box / ppd omitted when no position is requested: every other field as with them
     for sel in (dict(pid=True), dict(tagged=True, density=True), dict(lagr_idx=True, pid=True, tagged=True, density=True)):
         run.ev()
